@@ -16,7 +16,7 @@ use uom::si::time::second;
 pub fn def() -> PropDef {
     PropDef {
         id: "C09",
-        rule: "inputs: (1) junk bank lists (0-40 banks; valid names of every kind, near-valid and random names; random bytes or valid packets of another kind); (2) realistic hit-pattern events (correlated wire pulses + 3-row pad clusters rendered with the shipped response functions, induction, integer noise) and forward-model annihilation events; (3) the same events re-encoded with valid CRCs/baselines after extreme edits: any wire sample to i16::MIN/MAX/ADC limits, any pad sample to i16::MIN/MAX/-2048/2047, wire waveforms of 64..703 (thorough: 65533) samples, pad requested_samples 0/1/100/101/511 for the whole event or for single chips (pads of one column then have waveforms of different lengths), a message with all 79 channels (incl. FPN/reset), the full ring of 256 wires, 16-byte suppressed packets, duplicated/dropped/renamed/foreign/corrupted banks, run numbers of every calibration era, any bank order; oracle: try_from_banks returns, and for every Ok event timestamp(), avalanches() and vertex() return (catch_unwind, builds with and without overflow checks), every avalanche has finite t/phi/z and finite positive amplitudes, a vertex is finite; non-trivial = build succeeded with >= 1 avalanche, or was rejected by a rule other than the bank-name grammar; distinct by bank-list hash",
+        rule: "inputs: (1) junk bank lists (0-40 banks; valid names of every kind, near-valid and random names; random bytes or valid packets of another kind); (2) realistic hit-pattern events (correlated wire pulses + 3-row pad clusters rendered with the shipped response functions, induction, integer noise) and forward-model annihilation events; (3) the same events re-encoded with valid CRCs/baselines after extreme edits: any wire sample to i16::MIN/MAX/ADC limits, any pad sample to i16::MIN/MAX/-2048/2047, wire waveforms of 64..703 (thorough: 65533) samples, pad requested_samples 0/1/100/101/511 for the whole event or for single chips (pads of one column then have waveforms of different lengths), a message with all 79 channels (incl. FPN/reset), the full ring of 256 wires, one contiguous wire block of every length 1..=256 (plus a second block), 16-byte suppressed packets, duplicated/dropped/renamed/foreign/corrupted banks, run numbers of every calibration era, any bank order; oracle: try_from_banks returns, and for every Ok event timestamp(), avalanches() and vertex() return (catch_unwind, builds with and without overflow checks), every avalanche has finite t/phi/z and finite positive amplitudes, a vertex is finite; non-trivial = build succeeded with >= 1 avalanche, or was rejected by a rule other than the bank-name grammar; distinct by bank-list hash",
         assumptions: &["stack overflow / abort are not observable through catch_unwind; they would end the check with exit 2"],
         run,
         replay,
@@ -245,9 +245,48 @@ fn junk_case() -> impl Strategy<Value = (u32, Vec<Bank>)> {
     (run_number(), vec((bank_name(), data), 0..=40))
 }
 
+/// One contiguous block of `len` wires with data (every length 1..=256, at a
+/// start derived from the seed; a third of the blocks straddle the 255/0 seam),
+/// plus a second, shorter block in the same event: sizes of the per-block
+/// linear systems are an input class of their own.
+fn block_length_event(i: u64, seed: u64, ev: &mut Ev) -> Outcome {
+    let len = (i % 256) as usize + 1;
+    let m = crate::props::mix(seed, i);
+    let start = if m % 3 == 0 { (256 - (m >> 8) as usize % len.min(255).max(1)) % 256 } else { (m >> 8) as usize % 256 };
+    let bins = 60 + (m >> 20) as usize % 200;
+    let mut wires: Vec<WireBank> = Vec::new();
+    let mut add = |first: usize, n: usize, wires: &mut Vec<WireBank>| {
+        for k in 0..n {
+            let wire = ((first + k) % 256) as u16;
+            if wires.iter().any(|w| w.wire == wire) {
+                continue;
+            }
+            let mut samples: Vec<i16> = (0..DELAY_SIM + bins).map(|t| WIRE_BASELINE_SIM + (crate::props::mix(m ^ wire as u64, t as u64) % 7) as i16 - 3).collect();
+            if crate::props::mix(m, wire as u64) % 3 == 0 {
+                let at = DELAY_SIM + (crate::props::mix(m, 1000 + wire as u64) as usize % (bins - 30));
+                for (t, v) in wire_response().iter().enumerate().take(25) {
+                    samples[at + t] = (samples[at + t] as f64 + 400.0 * v).clamp(-32768.0, 32764.0) as i16;
+                }
+            }
+            wires.push(WireBank { wire, samples });
+        }
+    };
+    add(start, len, &mut wires);
+    if len <= 200 {
+        // a second block, at least two wires away from the first
+        add((start + len + 2 + (m >> 40) as usize % 20) % 256, 1 + (m >> 48) as usize % 30.min(254 - len).max(1), &mut wires);
+    }
+    let event = EventModel { run: SIM, timestamp: i as u32, wires, pads: vec![], pad_samples: 200, chunk_size: 1400, msg_samples: vec![] };
+    let banks = event.banks().ok_or_else(|| Fail::new("harness", "no simulation map"))?;
+    ev.label("family:every-wire-block-length");
+    survives(SIM, &banks, ev)
+}
+
 fn run(r: &Run) {
     let t = r.tier;
     r.breadcrumbs.store(true, std::sync::atomic::Ordering::Relaxed);
+    let seed = r.seed;
+    r.enumerate("every_wire_block_length", 256 * t.pick(1, 8), move |i, ev| block_length_event(i, seed, ev));
     r.prop("junk_banks", t.pick(20_000, 400_000), junk_case, |(run, banks), ev| survives(*run, banks, ev));
     r.prop("extreme_events", t.pick(2_500, 40_000), move || case(t, 10), case_oracle);
     crate::props::c12::survival_batch(r, t.pick(300, 3_000));
@@ -258,6 +297,7 @@ fn replay(_r: &Run, check: &str, case: &Value) -> Option<Outcome> {
         "junk_banks" => replay_case(case, |(run, banks): &(u32, Vec<Bank>), ev| survives(*run, banks, ev)),
         "extreme_events" => replay_case(case, case_oracle),
         "forward_model_survival" => replay_case(case, crate::props::c12::survival_oracle),
+        "every_wire_block_length" => block_length_event(case["index"].as_u64().unwrap_or(0), _r.seed, &mut Ev::default()),
         _ => return None,
     })
 }
